@@ -209,10 +209,19 @@ def gen_io_faults(rng, opkind, enabled, rate):
         do = rng.choice([k for k in enabled if k not in ("short_read", "read_err")] or [do])
     if opkind in LOADS and do in ("short_write", "write_err", "write_torn") and opkind != "load_tar":
         do = rng.choice([k for k in enabled if k not in ("short_write", "write_err", "write_torn")] or [do])
-    site = rng.choice(SITES_FOR[do])
-    hi = {"io_write": 14, "io_read": 24, "io_open": 12, "mkdir": 3}[site]
-    if opkind in ("dump_yaml_file", "load_yaml_file"):
-        hi = {"io_write": 4, "io_read": 4, "io_open": 1, "mkdir": 1}[site]
+    # typical consultation counts per op kind (measured on fault-free runs: min/median/max), so
+    # that a decision usually meets a call; streams do no raw I/O at all
+    typical = {
+        "dump_tar": {"mkdir": 2, "io_open": 13, "io_write": 20, "io_read": 6},
+        "load_tar": {"mkdir": 3, "io_open": 15, "io_read": 20, "io_write": 6},
+        "dump_yaml_file": {"io_open": 1, "io_write": 3},
+        "load_yaml_file": {"io_open": 1, "io_read": 4},
+    }.get(opkind, {})
+    sites = [x for x in SITES_FOR[do] if typical.get(x)]
+    if not sites:
+        return out
+    site = rng.choice(sites)
+    hi = typical[site]
     f = {"site": site, "call": rng.randrange(0, hi), "do": do}
     if do in ("write_torn", "short_write", "short_read", "crash"):
         f["frac"] = rng.choice([0.0, 0.1, 0.5, 0.9, 1.0]) if do == "crash" else rng.choice([0.1, 0.5, 0.9])
